@@ -2,7 +2,27 @@
 
 use crate::CoalesceConfig;
 use hashbrown::HashMap;
+#[cfg(not(feature = "verif-hooks"))]
 use parking_lot::Mutex;
+#[cfg(feature = "verif-hooks")]
+use verif_lock::Mutex;
+
+/// `parking_lot::Mutex` with a scheduling point for simulators before every acquisition.
+#[cfg(feature = "verif-hooks")]
+mod verif_lock {
+    pub(crate) struct Mutex<T>(parking_lot::Mutex<T>);
+
+    impl<T> Mutex<T> {
+        pub(crate) fn new(v: T) -> Self {
+            Self(parking_lot::Mutex::new(v))
+        }
+        #[inline]
+        pub(crate) fn lock(&self) -> parking_lot::MutexGuard<'_, T> {
+            tower_resilience_core::verif::yield_point();
+            self.0.lock()
+        }
+    }
+}
 use std::future::Future;
 use std::hash::Hash;
 use std::marker::PhantomData;
